@@ -62,7 +62,9 @@ pub fn gen(prop: &str, scen: &str, _k: u64, seed: u64, tier: &str) -> Case {
             }
             case.input = random_input(&mut r_in, len, case.opt.dict);
             case.set("field", r_f.below(16) as i64);
-            case.set("value", *r_f.pick(&[0i64, 1, 2, 0x7F, 0xFF, 40, 41, 0x28]));
+            let any1 = r_f.below(256) as i64;
+            let any2 = 200 + r_f.below(56) as i64;
+            case.set("value", *r_f.pick(&[0i64, 1, 2, 0x7F, 0xFF, 40, 41, 224, 225, 226, any1, any1, any2, any2]));
             case.set("value64", *r_f.pick(&[0i64, 1, 1 << 32, 1 << 33, 1 << 40, i64::MAX, -1, 1 << 62]));
         }
         "hostile.params" => {
